@@ -1,5 +1,5 @@
 """C01 Complete recovery from any loss within the parity level."""
-import arrayprop
+import arrayprop, directed
 
 SHAPES = [(2, 1), (3, 2), (4, 3), (2, 6), (1, 2), (5, 4), (3, 5), (6, 2), (1, 1), (4, 6), (2, 2), (3, 3)]
 
@@ -7,6 +7,7 @@ SHAPES = [(2, 1), (3, 2), (4, 3), (2, 6), (1, 2), (5, 4), (3, 5), (6, 2), (1, 1)
 def run(tier):
     return arrayprop.standard_run(
         "C01", tier, profiles=["c01"], nquick=24, nthorough=240, steps=(24, 48), shapes=SHAPES,
+        directed_jobs=lambda s0: [(s0 + k, dict(nd=2, np=1, copies=2), "directed-fixlinks", 0, directed.fix_links) for k in (1, 2)],
         rule="each history builds a fragmented array by adds/deletes/touches and several syncs, ends in an error-free sync, "
              "then damages at most NP devices (disk lost, files deleted, blocks corrupted with unchanged stamp, parity lost "
              "or corrupted) or at most NP blocks of every stripe, runs fix and check; TLC evaluates C01_Fix on the real "
